@@ -114,6 +114,7 @@ func runClients(s *sim.Sim, cr *chainRun, sc *chainScen, after func(t *sim.Task,
 	for ci, cl := range sc.Clients {
 		cl := cl
 		s.Go(fmt.Sprintf("client%d", ci), func(t *sim.Task) {
+			var prev *ChainReq
 			for _, r := range cl {
 				t.Req = r.ID
 				t.Y(sim.SiteStart)
@@ -122,6 +123,13 @@ func runClients(s *sim.Sim, cr *chainRun, sc *chainScen, after func(t *sim.Task,
 				if after != nil {
 					after(t, r)
 				}
+				if prev != nil {
+					cr.resume(t, prev) // the chain the previous request left behind goes on now
+				}
+				prev = r
+			}
+			if prev != nil {
+				cr.resume(t, prev)
 			}
 		})
 	}
@@ -159,7 +167,7 @@ func (cfg *ChainCfg) handlerSees(r *ChainReq) (attrs, ctx, gen, params, sel stri
 }
 
 func runC06(x *Ctx) {
-	k := chainKnobs{swapbuf: true, cancels: 80, maxFilters: 3, maxCF: 7, twoServices: true, warm: true, richFilters: true, encoding: false, panics: 120, wfaults: 60, errors: true, plain: true, nested: false, maxPayload: 300, filterWrites: true}
+	k := chainKnobs{later: true, swapbuf: true, cancels: 80, maxFilters: 3, maxCF: 7, twoServices: true, warm: true, richFilters: true, encoding: false, panics: 120, wfaults: 60, errors: true, plain: true, nested: false, maxPayload: 300, filterWrites: true}
 	maxClients, maxReqs := 4, 3
 	if x.Thorough() {
 		maxClients, maxReqs = 5, 6
@@ -240,6 +248,9 @@ func checkChainOrder(x *Ctx, sc *chainScen, reqs []*ChainReq) {
 			}
 		}
 		for _, f := range cfg.effectiveFilters(r.Target) {
+			if cfg.Later && (r.Target == "route" || r.Target == "post") {
+				break // the continuation writes after the wrapping filters have returned: not attributable
+			}
 			in, wantN := res.WrapIn[f.tag], res.WrapWant[f.tag]
 			libWrites := targetEvent(cfg, r.Target) == "" // the library's own error writer adds bytes the harness did not count
 			if f.Kind == "newresp" && in != wantN && !libWrites || in < wantN {
